@@ -4,7 +4,8 @@
 #   verif.sh check <ID> [--tier quick|thorough] [--seconds N] [--workers N]
 #   verif.sh replay <path>
 #   verif.sh build            (rebuild the harness from /repo's working tree if needed; prints the binary path)
-#   verif.sh selftest determinism [worlds...]
+#   verif.sh selftest determinism [worlds...] | sensitivity [seeds...] | conformance
+#   verif.sh audit race
 # Exit codes: 0 held / 1 VIOLATION / 2 tooling trouble (never a violation).
 set -u
 ROOT="$(cd "$(dirname "${BASH_SOURCE[0]}")" && pwd)"
@@ -149,6 +150,24 @@ PYEOF
     bin=$(build) || exit 2
     "$bin" -test.run='^TestHarness$' -test.timeout=0 -mode=replay -file="$1" -root="$ROOT"
     exit $?
+    ;;
+  selftest)
+    case "${1:-}" in
+      determinism) shift; exec "$ROOT/selftest_determinism.sh" "$@";;
+      sensitivity) shift; exec "$ROOT/selftest_sensitivity.sh" "$@";;
+      conformance) (cd "$ROOT/sim" && "$GO" test -count=1 ./conform/) || exit 2;;
+      *) die2 "usage: verif.sh selftest determinism|sensitivity|conformance";;
+    esac
+    ;;
+  audit)
+    # Non-deciding audit in support of the data-race-freedom assumption (DESIGN.md §2.13): the
+    # library's own tests of the concurrent packages under the race detector, unrewritten. It can
+    # print race reports but never a VIOLATION line; exit 0 clean / 3 races seen.
+    [ "${1:-}" = "race" ] || die2 "usage: verif.sh audit race"
+    if (cd "$REPO" && go test -race -vet=off -count=3 ./stream/ ./parallel/ ./xsync/ ./chans/ 2>&1 | grep -v "^ok" | tee /dev/stderr | grep -q "DATA RACE"); then
+      echo "audit race: the race detector reported races in the library's own tests (see above)"; exit 3
+    fi
+    echo "audit race: no race reported by the library's own tests of stream, parallel, xsync, chans (xtime left out: its only test is wall-clock sensitive)"
     ;;
   worker)
     bin=$(build) || exit 2
